@@ -487,6 +487,8 @@ def run(case, rec):
                 if variant == "view" and k == which:
                     big = np.repeat(a[k].ravel(), 2)
                     a[k] = big[::2].reshape(a[k].shape)
+                if variant == "fortran" and k == which:
+                    a[k] = np.asfortranarray(a[k])
                 if (variant == "readonly" and k == which) or variant == "all_readonly":
                     a[k].setflags(write=False)
                 keep[k] = a[k].tobytes()
@@ -502,7 +504,7 @@ def run(case, rec):
         again = run_variant("base")
         rec.check(not raised(again) and _canon(again) == cb, "%s: a second identical call returned a different result" % case["name"])
         for k in slots_t:
-            for variant in ("readonly", "view"):
+            for variant in ("readonly", "view") + (("fortran",) if np.ndim(slots_t[k]) == 2 else ()):
                 r = run_variant(variant, k)
                 if raised(r):
                     rec.check(False, "%s: %s input %r raised %r although the writable contiguous one works" % (case["name"], variant, k, r))
